@@ -28,7 +28,7 @@ TAIL_PARTNERS = [-2.0, -0.5, 0.0, 1.0, 3.0]
 
 def configs(tier):
     means = [(0.0, 0.0), (1.5, -2.0)]
-    vars_ = [1e-8, 0.01, 1.0, 100.0] if tier == "quick" else [1e-12, 1e-8, 1e-4, 0.01, 1.0, 100.0, 1e8]
+    vars_ = [1e-8, 1e-4, 0.01, 1.0, 100.0, 1e8] if tier == "quick" else [1e-12, 1e-8, 1e-4, 0.01, 1.0, 100.0, 1e8]
     vpairs = list(itertools.product(vars_, vars_))
     if tier == "quick":
         rs = [0.0] + [s * r for r in RS_POS for s in (1, -1)]
